@@ -48,34 +48,64 @@ func codedWrapperExhaustive(c *core.Ctx) {
 	info := p.Connect.TypesInfo
 	errT := types.Universe.Lookup("error").Type()
 	wrappers := 0
-	scope := p.Connect.Types.Scope()
-	for _, name := range scope.Names() {
-		tn, ok := scope.Lookup(name).(*types.TypeName)
-		if !ok {
+	// the wrappers are what the two constructors build; a translator is either a direct call of the
+	// wrapping function or a call of a func field in which the constructor installs that function
+	for _, spec := range []struct{ ctor string }{{"wrapClientConnWithCodedErrors"}, {"wrapHandlerConnWithCodedErrors"}} {
+		cfd := fn(p, spec.ctor)
+		if cfd == nil {
+			c.Unresolved(spec.ctor, "not found")
 			continue
 		}
-		named, ok := tn.Type().(*types.Named)
-		if !ok {
-			continue
-		}
-		emb := embedsInterface(named)
-		if emb == nil {
-			continue
-		}
-		st := named.Underlying().(*types.Struct)
-		var fromWire, toWire *types.Var
-		for i := 0; i < st.NumFields(); i++ {
-			switch st.Field(i).Name() {
-			case "fromWire":
-				fromWire = st.Field(i)
-			case "toWire":
-				toWire = st.Field(i)
+		var named *types.Named
+		installed := map[*types.Var]string{}
+		ast.Inspect(cfd.Body, func(x ast.Node) bool {
+			lit, ok := x.(*ast.CompositeLit)
+			if !ok {
+				return true
 			}
-		}
-		if fromWire == nil {
-			continue // not an error-translating wrapper (e.g. the recover interceptor embeds Interceptor)
+			nt := astx.NamedOf(info.TypeOf(lit))
+			if nt == nil || nt.Obj().Pkg() != p.Connect.Types || embedsInterface(nt) == nil {
+				return true
+			}
+			named = nt
+			for fld, val := range builtFields(info, cfd.Body, lit) {
+				v := astx.StripConv(info, astx.Unparen(val))
+				if f, ok := astx.ObjOf(info, v).(*types.Func); ok {
+					installed[fld] = f.Name()
+				}
+			}
+			return true
+		})
+		if named == nil {
+			c.Undecided(spec.ctor+"/wrapper", cfd.Pos(), "%s does not build a struct that embeds the conn interface", spec.ctor)
+			continue
 		}
 		wrappers++
+		name := named.Obj().Name()
+		tn := named.Obj()
+		emb := embedsInterface(named)
+		translates := func(call *ast.CallExpr, want string) bool {
+			if len(call.Args) != 1 {
+				return false
+			}
+			if f := astx.CalleeFunc(info, call); f != nil && f.Name() == want && f.Pkg() == p.Connect.Types {
+				return true
+			}
+			if fld := astx.FieldOf(info, call.Fun); fld != nil && installed[fld] == want {
+				return true
+			}
+			return false
+		}
+		// func(error) error fields of the wrapper must hold one of the two wrapping functions
+		st := named.Underlying().(*types.Struct)
+		for i := 0; i < st.NumFields(); i++ {
+			f := st.Field(i)
+			sig, ok := f.Type().Underlying().(*types.Signature)
+			if !ok || sig.Params().Len() != 1 || sig.Results().Len() != 1 || !types.Identical(sig.Params().At(0).Type(), errT) || !types.Identical(sig.Results().At(0).Type(), errT) {
+				continue
+			}
+			c.Check(installed[f] == "wrapIfUncoded" || installed[f] == "wrapIfContextError", spec.ctor+"/"+f.Name(), cfd.Pos(), "%s installs %s = %s (one of the wrapping functions)", spec.ctor, f.Name(), installed[f])
+		}
 		iface := emb.Type().Underlying().(*types.Interface)
 		for i := 0; i < iface.NumMethods(); i++ {
 			m := iface.Method(i)
@@ -89,7 +119,7 @@ func codedWrapperExhaustive(c *core.Ctx) {
 				c.Violation(key, tn.Pos(), "%s does not override %s: the embedded conn's raw (possibly uncoded) error is promoted to the caller", name, m.Name())
 				continue
 			}
-			// every return passes through fromWire(...) whose argument derives from the embedded call
+			// every return passes through wrapIfUncoded(...) whose argument derives from the embedded call
 			good := true
 			sawInner := false
 			for _, ret := range astx.Returns(fd.Body) {
@@ -98,7 +128,7 @@ func codedWrapperExhaustive(c *core.Ctx) {
 					continue
 				}
 				call, ok := astx.Unparen(ret.Results[0]).(*ast.CallExpr)
-				if !ok || astx.FieldOf(info, call.Fun) != fromWire || len(call.Args) != 1 {
+				if !ok || !translates(call, "wrapIfUncoded") {
 					good = false
 					continue
 				}
@@ -115,7 +145,7 @@ func codedWrapperExhaustive(c *core.Ctx) {
 				if ok {
 					if f := astx.CalleeFunc(info, inner); f == m {
 						sawInner = true
-						if toWire != nil && m.Name() == "Close" {
+						if spec.ctor == "wrapHandlerConnWithCodedErrors" && m.Name() == "Close" {
 							okTo := false
 							if len(inner.Args) == 1 {
 								ia := astx.Unparen(inner.Args[0])
@@ -124,49 +154,20 @@ func codedWrapperExhaustive(c *core.Ctx) {
 										ia = astx.Unparen(def) // computed into a local first
 									}
 								}
-								if tc, ok := ia.(*ast.CallExpr); ok && astx.FieldOf(info, tc.Fun) == toWire {
+								if tc, ok := ia.(*ast.CallExpr); ok && translates(tc, "wrapIfContextError") {
 									okTo = true
 								}
 							}
-							c.Check(okTo, key+"/toWire", inner.Pos(), "the error given to the protocol's Close passes through toWire first")
+							c.Check(okTo, key+"/toWire", inner.Pos(), "the error given to the protocol's Close passes through wrapIfContextError first")
 						}
 					}
 				}
 			}
-			c.Check(good && sawInner, key, fd.Pos(), "%s returns fromWire(<embedded>.%s(...)) on every path", key, m.Name())
+			c.Check(good && sawInner, key, fd.Pos(), "%s returns wrapIfUncoded(<embedded>.%s(...)) on every path (directly or through a field the constructor fills with it)", key, m.Name())
 		}
 	}
 	c.Floor("error-translating wrappers", wrappers, 2)
 
-	// constructors install the right functions
-	for _, spec := range []struct {
-		ctor   string
-		fields map[string]string
-	}{
-		{"wrapClientConnWithCodedErrors", map[string]string{"fromWire": "wrapIfUncoded"}},
-		{"wrapHandlerConnWithCodedErrors", map[string]string{"fromWire": "wrapIfUncoded", "toWire": "wrapIfContextError"}},
-	} {
-		fd := fn(p, spec.ctor)
-		if fd == nil {
-			c.Unresolved(spec.ctor, "not found")
-			continue
-		}
-		got := map[string]string{}
-		ast.Inspect(fd.Body, func(x ast.Node) bool {
-			if lit, ok := x.(*ast.CompositeLit); ok {
-				for fld, val := range builtFields(info, fd.Body, lit) {
-					v := astx.StripConv(info, astx.Unparen(val))
-					if f, ok := astx.ObjOf(info, v).(*types.Func); ok {
-						got[fld.Name()] = f.Name()
-					}
-				}
-			}
-			return true
-		})
-		for f, want := range spec.fields {
-			c.Check(got[f] == want, spec.ctor+"/"+f, fd.Pos(), "%s installs %s = %s (want %s)", spec.ctor, f, got[f], want)
-		}
-	}
 	// every NewConn returns a wrapped conn
 	check := func(iface, ctor string, resultIdx int) {
 		for _, m := range implementationsOf(p, iface, "NewConn") {
